@@ -195,6 +195,36 @@ def run_qr(case):
                 events.append(judge("qr/energy-unchanged", abs(e_w - e_q), etol / rel, key + "/energy-unchanged/" + kind))
                 events.append(judge("qr/force-bias-unchanged", float(np.max(np.abs(f_w - f_q))), 1e-8 * cnd / rel, key + "/fb-unchanged/" + kind))
                 cnt["measurement_invariance"] += 1
+    # ---- restricted container with an open-shell trial: the beta determinant is the span of the walker's first n_dn columns,
+    # re-orthonormalisation must preserve BOTH spans (state unchanged up to a scalar), energy and force bias
+    if na > nb and kind in ("uhf", "ghf", "noci") and case["cond"] != "illcond":
+        prop = propagation.propagator_restricted(n_walkers=nw)
+        # column norms deliberately not in decreasing order
+        upo = up * (10.0 ** rng.uniform(-1, 1, size=(nw, 1, na)))
+        pdq = prop.orthonormalize_walkers({"walkers": jnp.array(upo)})
+        qo = np.asarray(pdq["walkers"])
+        r_par = r_e = r_f = 0.0
+        n_meas = 0
+        for k in range(nw):
+            a = F.det(upo[k][:, :na], upo[k][:, :nb])
+            b = F.det(qo[k][:, :na], qo[k][:, :nb])
+            par = 1.0 - abs(np.vdot(a, b)) / (np.linalg.norm(a) * np.linalg.norm(b))
+            r_par = max(r_par, float(par))
+            rel = abs(np.vdot(psi, a)) / (np.linalg.norm(psi) * np.linalg.norm(a))
+            if rel >= 0.05:
+                e_w = complex(trial._calc_energy_restricted(jnp.array(upo[k]), hd, wd_))
+                e_q = complex(trial._calc_energy_restricted(jnp.array(qo[k]), hd, wd_))
+                f_w = np.asarray(trial._calc_force_bias_restricted(jnp.array(upo[k]), hd, wd_))
+                f_q = np.asarray(trial._calc_force_bias_restricted(jnp.array(qo[k]), hd, wd_))
+                r_e = max(r_e, abs(e_w - e_q) * rel)
+                r_f = max(r_f, float(np.max(np.abs(f_w - f_q))) * rel)
+                n_meas += 1
+        events.append(judge("qr/open-shell-restricted-state-unchanged", r_par, 1e-10, key + "/restricted-open/state/" + kind))
+        if n_meas:
+            events.append(judge("qr/open-shell-restricted-energy-unchanged", r_e, 1e-8 * measure.ham_scale(h0, h1, chol), key + "/restricted-open/energy/" + kind))
+            events.append(judge("qr/open-shell-restricted-force-bias-unchanged", r_f, 1e-8, key + "/restricted-open/fb/" + kind))
+        cnt["qr_batches"] += 1
+        containers = containers + ["restricted-open"]
     nontriv = bool(containers)
     return {"events": events, "nontrivial": nontriv, "sample": {"kind": kind, "nelec": [na, nb], "walkers": nw, "cond_class": case["cond"],
                                                                  "containers": containers}, "counters": cnt}
